@@ -408,8 +408,10 @@ theorem used_runFrame (p : Prog) (hh : Hist) {s : St} {f : Frame} {rest : List F
         exact used_same_top hu hs trivial (g := g) (rest' := r) (by simpa using hr) hg rfl (fun T => by cases T <;> rfl)
     · split
       · rename_i e ex work _
-        exact used_same_top hu hs trivial (g := .despawnWork work) (rest' := rest) (by simp [St.push]) trivial (by simp [St.push])
-          (fun T => by cases T <;> simp [flagOf, St.push])
+        split
+        · exact used_same_top hu hs trivial (g := .despawnWork work) (rest' := rest) (by simp [St.push]) trivial (by simp [St.push])
+            (fun T => by cases T <;> simp [flagOf, St.push])
+        · exact used_same_top hu hs trivial (g := .flush) (rest' := .despawnWork _ :: rest) rfl trivial (by simp [St.push]) (fun T => by cases T <;> rfl)
       · split
         · exact used_same_top hu hs trivial (g := .despawnWork _) (rest' := rest) rfl trivial (by simp [St.push]) (fun T => by cases T <;> rfl)
         · exact used_same_top hu hs trivial (g := .despawnWork _) (rest' := rest) rfl trivial (by simp [St.push]) (fun T => by cases T <;> rfl)
